@@ -9,6 +9,8 @@
 (* Part selects the universe (one TLC process per Part and Shard):         *)
 (*   "sem"  MapSpec x input shapes: shape(), output_key, input_keys for    *)
 (*          ALL linear indices; shape mismatches by mutation of one shape  *)
+(*          or by exchanging the shapes of two inputs; the shape mappings  *)
+(*          are presented in EVERY insertion order (out.calls)             *)
 (*   "syn"  MapSpec under several naming schemes: str, from_string with    *)
 (*          whitespace, rename, add_axes                                   *)
 (*   "bad"  malformed ASTs by mutation of well-formed ones                 *)
@@ -121,11 +123,16 @@ ShapeMuts(s, d) ==
               p \in {q \in (DOMAIN s.ins) \X (1..3) : q[2] <= Len(s.ins[q[1]])}}
           \cup {[t |-> "drop", x |-> x, k |-> 0] : x \in DOMAIN s.ins}
           \cup {[t |-> "grow", x |-> x, k |-> 0] : x \in DOMAIN s.ins}
+          \* the shapes of two inputs exchanged (each array gets the other's): "the right shapes under the wrong names"
+          \cup {[t |-> "exchange", x |-> p[1], k |-> p[2]] :
+                   p \in {q \in (DOMAIN s.ins) \X (DOMAIN s.ins) :
+                            q[1] < q[2] /\ InShapes(s, d, DimBound(s))[q[1]] # InShapes(s, d, DimBound(s))[q[2]]}}
           \cup (IF InternalDims(s, d) # <<>> THEN {[t |-> "intshort", x |-> 0, k |-> 0]} ELSE {}))
 MutShapes(insh, mu, md) ==
     CASE mu.t = "resize" -> [insh EXCEPT ![mu.x][mu.k] = (@ % md) + 1]
       [] mu.t = "drop"   -> [insh EXCEPT ![mu.x] = SubSeq(@, 1, Len(@) - 1)]
       [] mu.t = "grow"   -> [insh EXCEPT ![mu.x] = Append(@, 2)]
+      [] mu.t = "exchange" -> [insh EXCEPT ![mu.x] = insh[mu.k], ![mu.k] = insh[mu.x]]
       [] OTHER           -> insh
 MutInternal(int, mu) == IF mu.t = "intshort" THEN SubSeq(int, 1, Len(int) - 1) ELSE int
 
@@ -134,15 +141,20 @@ SemCase(s, d, mu) ==
      m |-> Named(s, Schemes[SchemeOf(s)], NOutOf(s)),
      insh |-> MutShapes(InShapes(s, d, DimBound(s)), mu, DimBound(s)),
      internal |-> MutInternal(InternalDims(s, d), mu)]
+(* internal_shapes is passed when there is something to say (an internal axis, or sizes given) *)
+WithInternal(c) == c.internal # <<>> \/ (\E k \in DOMAIN Mask(c.m) : ~Mask(c.m)[k])
+(* out.calls: the arguments of shape() as mappings, in every insertion order (the first one in the    *)
+(* order of the MapSpec); out.shape is the expected outcome of EVERY one of these calls.               *)
 SemOut(c) ==
-    LET sh == Shape(c.m, c.insh, c.internal)
+    LET sh    == Shape(c.m, c.insh, c.internal)
+        calls == Presentations(c.m, c.insh, c.internal, WithInternal(c))
     IN  IF sh.ok
         THEN LET ext == ExtShape(sh)
                  N   == SeqProduct(ext)
-             IN  [shape |-> sh, ext |-> ext, n |-> N,
+             IN  [shape |-> sh, ext |-> ext, n |-> N, calls |-> calls,
                   okeys |-> [l \in 1..N |-> OutputKey(c.m, ext, l - 1)],       \* element l: linear index l-1
                   ikeys |-> [l \in 1..N |-> InputKeys(c.m, ext, l - 1)]]
-        ELSE [shape |-> sh, ext |-> <<>>, n |-> 0, okeys |-> <<>>, ikeys |-> <<>>]
+        ELSE [shape |-> sh, ext |-> <<>>, n |-> 0, calls |-> calls, okeys |-> <<>>, ikeys |-> <<>>]
 InitSem == \E s \in {x \in AllStructs : InShard(x)} :
              \E d \in [1..s.R -> 1..DimBound(s)] :
                \E mu \in ShapeMuts(s, d) :
@@ -302,15 +314,21 @@ InitAcc == \E i \in DOMAIN AccFile :
                                            Lexicon(SeqElems(AccFile[i].idents), SeqElems(AccFile[i].scoped)))]
 
 ---------------------------------------------------------------------------
-(* Part "rec": one JSON line per recorded MapSpec: {id, ms, idents, scoped, insh, internal, built,   *)
-(* shape_ok, shape, mask, obs: [{l, okey, ikeys}]}: what the constructor, shape(), output_key(),      *)
-(* input_keys() did (built / shape_ok = FALSE: raised; a key <<-2>>: raised).  out names the          *)
+(* Part "rec": one JSON line per recorded MapSpec: {id, ms, idents, scoped, insh, internal, pin,     *)
+(* pint, built, shape_ok, shape, mask, obs: [{l, okey, ikeys}]}: what the constructor, shape(),       *)
+(* output_key(), input_keys() did (built / shape_ok = FALSE: raised; a key <<-2>>: raised).  pin /     *)
+(* pint are the mappings shape() was called with, entry by entry in the (seeded random) insertion      *)
+(* order of the dicts; the verdict on shape() is ShapeNamed of exactly these.  out names the           *)
 (* observations the spec rejects.                                                                     *)
 RecFile == IF Part = "rec" THEN ndJsonDeserialize(IOEnv.ACC_FILE) ELSE <<>>
 RecVerdict(r) ==
     LET L  == Lexicon(SeqElems(r.idents), SeqElems(r.scoped))
-        sh == Shape(r.ms, r.insh, r.internal)
+        sh == ShapeNamed(r.ms, r.pin, r.pint)
     IN  IF ~(WellFormed(r.ms, L) /\ Regular(r.ms)) THEN {"generator: not a regular well-formed MapSpec"}
+        ELSE IF ~(/\ Presents(r.pin, InputNames(r.ms)) /\ Presents(r.pint, OutputNames(r.ms))
+                  /\ ByPosition(InputNames(r.ms), r.pin) = r.insh
+                  /\ \A q \in DOMAIN r.pint : r.pint[q].shape = r.internal)
+             THEN {"generator: the recorded mappings do not present insh / internal"}
         ELSE IF ~r.built THEN {"__init__: a well-formed MapSpec was refused"}
         ELSE (IF sh.ok # r.shape_ok THEN {"shape: raised / returned"} ELSE {})
              \cup (IF sh.ok /\ r.shape_ok /\ (sh.shape # r.shape \/ sh.mask # r.mask) THEN {"shape: value"} ELSE {})
@@ -365,6 +383,10 @@ InvHistory ==
                    IN  /\ OpEnabled(prev, op, Lex) /\ LawStep(prev, op, Lex)
                        /\ HisObjAt(Len(out.objs)) = StepObj(prev, op, Lex)
 InvShape       == IsSem => LawShape(case.m, case.insh, case.internal)
+InvShapeByName == IsSem => /\ LawShapeByName(case.m, case.insh, case.internal, WithInternal(case))
+                           /\ out.calls = Presentations(case.m, case.insh, case.internal, WithInternal(case))
+                           /\ \A q \in DOMAIN out.calls :
+                                 ShapeNamed(case.m, out.calls[q].pin, out.calls[q].pint) = out.shape
 InvOutputKey   == (IsSem /\ out.shape.ok) => LawOutputKeyBijection(case.m, out.ext)
 InvInputKeys   == (IsSem /\ out.shape.ok) => LawInputKeysSelect(case.m, case.insh, out.ext)
 InvRenameDenotes == (IsSem /\ case.ramp /\ case.mut = "none") =>
